@@ -27,5 +27,24 @@ if b in s:
     s = s[:s.index(b) + len(b)] + "\n" + tab + "\n" + s[s.index(e):]
 else:
     s = s.replace("SEEDED_TABLE", b + "\n" + tab + "\n" + e)
+# per-property status table from MANIFEST.json + the last evidence files
+man = json.load(open(os.path.join(HERE, "MANIFEST.json")))
+prow = []
+for c in man["checks"]:
+    pid = c["property_id"]
+    try:
+        ev = json.load(open(os.path.join(HERE, "evidence", pid + ".json")))
+        cov = ev["coverage"]
+        nfun = len(cov.get("functions_under_contract", {}))
+        st = f"{cov['discharged']}/{cov['obligations']} obligations, {nfun} functions, solver {cov.get('solver_s', 0):.1f} s, {len(cov.get('bounded', []))} bounded stand-in(s)"
+    except Exception:
+        st = "no evidence file"
+    prow.append(f"| {pid} | {c['level_claimed']['category']} | {st} | {c['level_claimed']['text'].replace('|', '/')} | {c['level_note'].split(' Trusted base:')[0].replace('|', '/')} |")
+for n in man.get("not_applicable", []):
+    prow.append(f"| {n['property_id']} | not applicable | - | - | {n['reason']} |")
+ptab = "| property | level | last quick run | decided deductively (all inputs) | bounded / assumed / findings |\n|---|---|---|---|---|\n" + "\n".join(prow)
+b2, e2 = "<!-- PROPERTY_TABLE_BEGIN -->", "<!-- PROPERTY_TABLE_END -->"
+if b2 in s:
+    s = s[:s.index(b2) + len(b2)] + "\n" + ptab + "\n" + s[s.index(e2):]
 open(p, "w").write(s)
-print(len(rows), "rows")
+print(len(rows), "rows;", len(prow), "properties")
